@@ -3,10 +3,10 @@ package main
 // Solver racing: each query is sent to z3-new (5.1.0), z3 (4.8.12) and cvc5 (1.0.x) concurrently.
 
 import (
-	"crypto/sha256"
-	"encoding/hex"
 	"bytes"
 	"context"
+	"crypto/sha256"
+	"encoding/hex"
 	"fmt"
 	"os"
 	"os/exec"
